@@ -10,7 +10,8 @@
  * Handles: table slot 1..n -> struct node *.  A new node takes the smallest
  * unused slot; the nodes of a clone are entered in pre-order of the copy.
  * After each call all four links of every live node are logged as handles
- * (0 = null, -1 = a pointer that is no live handle).  A step given with
+ * (0 = null, -1 = a pointer that is no live handle).  A name "~<bytes>" stands
+ * for a non-text identifier (raw key, charset 0) with these bytes.  A step given with
  * q=1 is executed without logging the state (prefix of a replayed behaviour).
  */
 #undef malloc
@@ -254,7 +255,14 @@ static void emit(struct cmd *c, int isnum, long long num, const char *str,
 			const struct mpt_node *n = tab[i];
 			const char *d = (const char *) mpt_identifier_data(&n->ident);
 			size_t l = n->ident._len;
-			if (l && d) {
+			if (l && d && n->ident._charset != MPT_CHARSET(UTF8)) {
+				/* non-text identifier (raw key): "~" + its bytes */
+				if (l > sizeof(buf) - 2) l = sizeof(buf) - 2;
+				buf[0] = '~';
+				memcpy(buf + 1, d, l);
+				buf[l + 1] = 0;
+			}
+			else if (l && d) {
 				if (l > sizeof(buf)) l = sizeof(buf);
 				memcpy(buf, d, l - 1);
 				buf[l - 1] = 0;
@@ -417,7 +425,15 @@ static void drv_step(struct cmd *c)
 		size_t len = strlen(name);
 		struct mpt_node *nn = mpt_node_new(len + 1);
 		int id = 0;
-		if (nn) {
+		if (nn && name[0] == '~' && len > 1) {
+			/* "~<bytes>": a non-text identifier (raw key): storage from
+			 * mpt_identifier_set(id, 0, len), then the key bytes */
+			void *key = mpt_identifier_set(&nn->ident, 0, (int) len - 1);
+			if (key) memcpy(key, name + 1, len - 1);
+			if (v) nn->_meta = cm_new(v);
+			id = enter(nn);
+		}
+		else if (nn) {
 			mpt_identifier_set(&nn->ident, name, (int) len);
 			if (v) nn->_meta = cm_new(v);
 			id = enter(nn);
